@@ -58,6 +58,17 @@ def paren_family():
         yield f"NOT ( A {o1} B ) {o2} C"
         yield f"A {o1} - ( B {o2} C )"
         yield f"A {o1} Q ( B {o2} C )"
+    for o1, o2 in itertools.product(OPS, repeat=2):
+        # a parenthesised group that itself starts with a prefix operator
+        yield f"A {o1} ( - B {o2} C )"
+        yield f"( - A {o1} B ) {o2} C"
+        yield f"A {o1} ( + B {o2} C )"
+        yield f"A {o1} ( NOT B {o2} C )"
+    for o in OPS:
+        yield f"( - A ) {o} B"
+        yield f"A {o} ( - B )"
+        yield f"( NOT A ) {o} B"
+        yield f"A {o} ( ( B ) )"
     for o in OPS:
         yield f"A {o} 2 ^ - B"
         yield f"A ^ - B {o} C"
@@ -65,7 +76,8 @@ def paren_family():
         yield f"INT ( A ) {o} INT ( B )"
         yield f"- INT ( A ) {o} B"
         yield f"PEEK ( A {o} 1 ) + ASC ( A$ )"
-    for lit in ("1.5", "1E3", "&HFF", "&H8000", "&H7FFF", ".5", "100000", "0"):
+    for lit in ("1.5", "1E3", "&HFF", "&H8000", "&H7FFF", ".5", "100000", "0", "1E-7", "1.25E-5", ".00000015", "6.02E-23", "1E16", "2.5E+20",
+                "123456789", ".1", "1E-5", ".00002", "1 E 3", "99999999", "1E38", "&H0", "&HFFFF", "&H10000", "&HFFFFFF", "0.5", "00012", "12.500"):
         yield f"A + {lit}"
         yield f"- {lit} ^ 2"
     yield "ABS ( INT ( A ) )"
